@@ -65,6 +65,7 @@ type c10Sub struct {
 	level       int
 	placeholder bool
 	node        *c10Node
+	pub         *fpgo.PublisherDef[int] // the publisher the subscription was made on
 }
 
 type c10Pub struct {
@@ -126,7 +127,14 @@ func genC10(t *simrt.Tape, tier string) Scenario {
 		n := 1 + t.Choose(maxOps)
 		var ops []c10Op
 		for k := 0; k < n; k++ {
-			switch t.ChooseW([]int{10, 2, 4, 1, 1}) {
+			switch t.ChooseW([]int{10, 2, 4, 1, 1, 1}) {
+			case 5:
+				// a subscription made at run time on the Map-derived publisher
+				if sc.Map {
+					ops = append(ops, c10Op{Kind: "SubscribeDerived"})
+				} else {
+					ops = append(ops, c10Op{Kind: "Subscribe"})
+				}
 			case 4:
 				if sc.Map {
 					ops = append(ops, c10Op{Kind: "PublishMid"})
@@ -141,10 +149,24 @@ func genC10(t *simrt.Tape, tier string) Scenario {
 			case 1:
 				ops = append(ops, c10Op{Kind: "Subscribe"})
 			case 2:
-				ops = append(ops, c10Op{Kind: "Unsubscribe", Sub: t.Choose(sc.NSubs)})
+				// any initial subscription, those of the derived publishers included
+				nInit := sc.NSubs + sc.NDerive
+				if sc.Map2 {
+					nInit++
+				}
+				ops = append(ops, c10Op{Kind: "Unsubscribe", Sub: t.Choose(nInit)})
 			}
 		}
 		sc.Threads = append(sc.Threads, ops)
+	}
+	if sc.Map && t.Bool(1, 3) {
+		// somewhere in one thread: every subscription of the derived publisher(s) is unsubscribed, a new one is made
+		// there, and the origin publishes again
+		ti := t.Choose(len(sc.Threads))
+		at := t.Choose(len(sc.Threads[ti]) + 1)
+		ops := append([]c10Op{}, sc.Threads[ti][:at]...)
+		ops = append(ops, c10Op{Kind: "DrainDerived"}, c10Op{Kind: "SubscribeDerived"}, c10Op{Kind: "Publish"})
+		sc.Threads[ti] = append(ops, sc.Threads[ti][at:]...)
 	}
 	return sc
 }
@@ -182,7 +204,7 @@ func (sc *c10Scenario) Run(s *simrt.Sim) {
 	var unsubscribe func(name string, target *c10Sub)
 	var newSub func(name string, pub *fpgo.PublisherDef[int], derived bool, action string, target int) *c10Sub
 	newSub = func(name string, pub *fpgo.PublisherDef[int], derived bool, action string, target int) *c10Sub {
-		cs := &c10Sub{id: len(sc.subs), derived: derived, action: action, target: target, node: nodeOf[pub]}
+		cs := &c10Sub{id: len(sc.subs), derived: derived, action: action, target: target, node: nodeOf[pub], pub: pub}
 		sc.subs = append(sc.subs, cs)
 		if action == "placeholder" {
 			// a registered subscription without a callback: gets nothing, disturbs nobody
@@ -223,10 +245,10 @@ func (sc *c10Scenario) Run(s *simrt.Sim) {
 		return cs
 	}
 	unsubscribe = func(name string, target *c10Sub) {
-		if target.ptr == nil || target.derived {
+		if target.ptr == nil || target.pub == nil {
 			return
 		}
-		op := h.Do(name, "Unsubscribe", target.id, func() (interface{}, error) { p.Unsubscribe(target.ptr); return nil, nil })
+		op := h.Do(name, "Unsubscribe", target.id, func() (interface{}, error) { target.pub.Unsubscribe(target.ptr); return nil, nil })
 		target.unsubs = append(target.unsubs, op)
 	}
 	for i := 0; i < sc.NSubs; i++ {
@@ -276,6 +298,18 @@ func (sc *c10Scenario) Run(s *simrt.Sim) {
 					sc.pubs = append(sc.pubs, &c10Pub{op: po, val: v, node: nodeOf[m]})
 				case "Subscribe":
 					newSub(name, p, false, "none", 0)
+				case "DrainDerived":
+					for _, cs := range append([]*c10Sub{}, sc.subs...) {
+						if cs.derived && cs.initial {
+							unsubscribe(name, cs)
+						}
+					}
+					sc.probes["derived-publisher-drained-then-resubscribed"]++
+				case "SubscribeDerived":
+					if m != nil {
+						newSub(name, m, true, "none", 0)
+						sc.probes["run-time-subscription-on-derived-publisher"]++
+					}
 				case "Map":
 					var mk *fpgo.PublisherDef[int]
 					h.Do(name, "Map", nil, func() (interface{}, error) {
@@ -388,6 +422,11 @@ func (sc *c10Scenario) Check(res *simrt.Result) []Violation {
 			// handler, and the derived publisher takes its own snapshot then: a subscription made on it
 			// after Publish returned may legitimately still see the value)
 			mustNot := (cs.subOp.Inv > P.op.Ret && !(cs.derived && sc.Handler)) || cs.placeholder
+			if sc.Handler && cs.derived && len(cs.unsubs) > 0 {
+				// the forwarding into the derived publisher runs later, on the handler: an Unsubscribe made after
+				// Publish returned may still come first
+				must = false
+			}
 			for _, u := range cs.unsubs {
 				if u.Inv < P.op.Ret {
 					must = false
